@@ -17,9 +17,9 @@ RULES = {
     "C10": [("sa.rules.b3", "r_C05_C10"), ("sa.rules.c05", "r_none_tests"), ("sa.rules.b6", "r_C03bc"), ("sa.rules.c03", "r_C03fgh"), ("sa.rules.c01", "r_C01i"), ("sa.rules.c01e", "r_C01visitors"), ("sa.rules.c10e", "r_C10eval"), ("sa.rules.c05e", "r_C05children"), ("sa.rules.c14", "r_C14inst"), ("sa.rules.cres", "r_resolver"), ("sa.rules.cpn", "r_processnode")],
     "C11": [("sa.rules.b3", "r_C03de_C11a_C17bc"), ("sa.rules.c11", "r_C11b"), ("sa.rules.c11", "r_C11de"), ("sa.rules.c32", "r_C32c"), ("sa.rules.c05", "r_none_tests"), ("sa.rules.c12", "r_C12f"), ("sa.rules.c12e", "r_C12eval"), ("sa.rules.c11e", "r_C11eval")],
     "C12": [("sa.rules.b1", "r_C12a"), ("sa.rules.c12", "r_C12b"), ("sa.rules.c05", "r_C12c"), ("sa.rules.c11", "r_C11de"), ("sa.rules.c12", "r_C12f"), ("sa.rules.c12e", "r_C12eval")],
-    "C13": [("sa.rules.b3", "r_C13"), ("sa.rules.c13", "r_C13eval"), ("sa.rules.cmisc", "r_C13d_C34f_C09d"), ("sa.rules.cmisc", "r_C13e"), ("sa.rules.c04", "r_C04defaults"), ("sa.rules.c17", "r_C18i"), ("sa.rules.b3", "r_C28b_C33b_C30bc"), ("sa.rules.cmeta", "r_mmapi"), ("sa.rules.cpn", "r_processnode"), ("sa.rules.cdrv", "r_driver")],
-    "C14": [("sa.rules.b4", "r_ledger"), ("sa.rules.c14", "r_C14inst"), ("sa.rules.c14", "r_ledger2"), ("sa.rules.b3", "r_C13"), ("sa.rules.c14", "r_C14h"), ("sa.rules.c14", "r_C14d"), ("sa.rules.c14", "r_C14i"), ("sa.rules.c14", "r_C15h"), ("sa.rules.c14", "r_C15i"), ("sa.rules.cmeta", "r_initclass"), ("sa.rules.cmeta", "r_initobj"), ("sa.rules.cpn", "r_processnode"), ("sa.rules.cdrv", "r_driver"), ("sa.rules.cmisc", "r_C06bcd")],
-    "C15": [("sa.rules.b4", "r_ledger"), ("sa.rules.c14", "r_ledger2"), ("sa.rules.c14", "r_C14i"), ("sa.rules.c14", "r_C15h"), ("sa.rules.b3", "r_C16a"), ("sa.rules.c14", "r_C15i"), ("sa.rules.c17", "r_C17jkl"), ("sa.rules.c17", "r_C18i"), ("sa.rules.c14", "r_C14inst"), ("sa.rules.cmeta", "r_initclass"), ("sa.rules.c17e", "r_C17eval"), ("sa.rules.c17e", "r_C15eval"), ("sa.rules.cdrv", "r_driver")],
+    "C13": [("sa.rules.b3", "r_C13"), ("sa.rules.c13", "r_C13eval"), ("sa.rules.cmisc", "r_C13d_C34f_C09d"), ("sa.rules.cmisc", "r_C13e"), ("sa.rules.c04", "r_C04defaults"), ("sa.rules.c17", "r_C18i"), ("sa.rules.b3", "r_C28b_C33b_C30bc"), ("sa.rules.cmeta", "r_mmapi"), ("sa.rules.cpn", "r_processnode"), ("sa.rules.cdrv", "r_driver"), ("sa.rules.c14", "r_endconstruction")],
+    "C14": [("sa.rules.b4", "r_ledger"), ("sa.rules.c14", "r_C14inst"), ("sa.rules.c14", "r_ledger2"), ("sa.rules.b3", "r_C13"), ("sa.rules.c14", "r_C14h"), ("sa.rules.c14", "r_C14d"), ("sa.rules.c14", "r_C14i"), ("sa.rules.c14", "r_C15h"), ("sa.rules.c14", "r_C15i"), ("sa.rules.cmeta", "r_initclass"), ("sa.rules.cmeta", "r_initobj"), ("sa.rules.cpn", "r_processnode"), ("sa.rules.cdrv", "r_driver"), ("sa.rules.cmisc", "r_C06bcd"), ("sa.rules.c14", "r_endconstruction")],
+    "C15": [("sa.rules.b4", "r_ledger"), ("sa.rules.c14", "r_ledger2"), ("sa.rules.c14", "r_C14i"), ("sa.rules.c14", "r_C15h"), ("sa.rules.b3", "r_C16a"), ("sa.rules.c14", "r_C15i"), ("sa.rules.c17", "r_C17jkl"), ("sa.rules.c17", "r_C18i"), ("sa.rules.c14", "r_C14inst"), ("sa.rules.cmeta", "r_initclass"), ("sa.rules.c17e", "r_C17eval"), ("sa.rules.c17e", "r_C15eval"), ("sa.rules.cdrv", "r_driver"), ("sa.rules.c14", "r_endconstruction")],
     "C16": [("sa.rules.b3", "r_C16a"), ("sa.rules.c14", "r_ledger2"), ("sa.rules.c16", "r_cachekeys"), ("sa.rules.c16", "r_C16f"), ("sa.rules.c17", "r_C17i"), ("sa.rules.c25", "r_C27d"), ("sa.rules.b4", "r_ledger"), ("sa.rules.c14", "r_C14i"), ("sa.rules.c14", "r_C15h"), ("sa.rules.b6", "r_C19a_C01"), ("sa.rules.c14", "r_C14inst"), ("sa.rules.cmeta", "r_initclass"), ("sa.rules.c17", "r_C01h"), ("sa.rules.c17e", "r_C17eval"), ("sa.rules.c17e", "r_C15eval"), ("sa.rules.c17e", "r_C17importuri"), ("sa.rules.cdrv", "r_driver")],
     "C17": [("sa.rules.b3", "r_C03de_C11a_C17bc"), ("sa.rules.b6", "r_C17ad_C22b"), ("sa.rules.c05", "r_none_tests"), ("sa.rules.c17", "r_C17fgh"), ("sa.rules.b4", "r_ledger"), ("sa.rules.c17", "r_C17i"), ("sa.rules.c17", "r_C17jkl"), ("sa.rules.c17", "r_C18i"), ("sa.rules.c17e", "r_C17eval"), ("sa.rules.c17e", "r_C15eval"), ("sa.rules.c17e", "r_C17importuri"), ("sa.rules.cdrv", "r_driver")],
     "C18": [("sa.rules.b4", "r_ledger"), ("sa.rules.c14", "r_ledger2"), ("sa.rules.c14", "r_C15i"), ("sa.rules.c17", "r_C17jkl"), ("sa.rules.c17", "r_C18i"), ("sa.rules.c14", "r_C14inst"), ("sa.rules.c17e", "r_C17eval"), ("sa.rules.cdrv", "r_driver")],
@@ -36,13 +36,14 @@ RULES = {
     "C29": [("sa.rules.b5", "r_C29"), ("sa.rules.c29", "r_export2"), ("sa.rules.c29", "r_C29e"), ("sa.rules.c29", "r_C31d_C29f")],
     "C30": [("sa.rules.c13", "r_C13eval"), ("sa.rules.b3", "r_C28b_C33b_C30bc"), ("sa.rules.c29", "r_cli2"), ("sa.rules.c26", "r_C26eval"), ("sa.rules.c26", "r_C26state"), ("sa.rules.b1", "r_C33a")],
     "C31": [("sa.rules.b4", "r_ledger"), ("sa.rules.c14", "r_ledger2"), ("sa.rules.c29", "r_export2"), ("sa.rules.c29", "r_C31d_C29f")],
-    "C32": [("sa.rules.c32", "r_C32"), ("sa.rules.c32", "r_C32c"), ("sa.rules.c32", "r_C32de"), ("sa.rules.c01e", "r_C01visitors"), ("sa.rules.cpn", "r_processnode")],
+    "C32": [("sa.rules.c32", "r_C32"), ("sa.rules.c32", "r_C32c"), ("sa.rules.c32", "r_C32de"), ("sa.rules.c01e", "r_C01visitors"), ("sa.rules.cpn", "r_processnode"), ("sa.rules.cdrv", "r_driver")],
     "C33": [("sa.rules.b1", "r_C33a"), ("sa.rules.b7", "r_origin"), ("sa.rules.c13", "r_C13eval"), ("sa.rules.b3", "r_C28b_C33b_C30bc"), ("sa.rules.c29", "r_C33c_C34g"), ("sa.rules.cmisc", "r_C06bcd"), ("sa.rules.cpn", "r_processnode"), ("sa.rules.cdrv", "r_driver"), ("sa.rules.cres", "r_resolver"), ("sa.rules.c16", "r_cachekeys")],
     "C34": [("sa.rules.b3", "r_C08_C34"), ("sa.rules.cmisc", "r_C13d_C34f_C09d"), ("sa.rules.c29", "r_C33c_C34g"), ("sa.rules.cmisc", "r_C06bcd"), ("sa.rules.c25", "r_who_writes"), ("sa.rules.c05", "r_C05cde"), ("sa.rules.cres", "r_resolver"), ("sa.rules.cpn", "r_processnode"), ("sa.rules.cdrv", "r_driver"), ("sa.rules.c14", "r_C14inst")],
 }
 
 # findings of one property that are *also* reported under another (same defect, two properties)
 ALSO = {
+    "C32": {"C18": ("C18.k",)},
     "C23": {"C03": ("C03.m",)},      # a valid grammar whose rule kinds cannot be determined ends in a non-textX error
     "C03": {"C01": ("C01.h",)},
     "C18": {"C15": ("C15.k", "C15.m")},
@@ -53,7 +54,7 @@ ALSO = {
     "C07": {"C01": ("C01.i",), "C03": ("C03.c", "C03.d", "C03.h", "C03.m"), "C16": ("C16.a",), "C34": ("C34.h",), "C05": ("C05.h",), "C32": ("C32.b",)},     # C03.m: the inheritor lists decide which objects conform to an abstract target rule; C34.h: a reference bound to a builtin (a plain object) must not break the round when tool support is on
     # C14: "__init__ ... runs before any object processor" is the ordering clause C13.a; instrumentation/storage clauses of C15
     "C14": {"C01": ("C01.j",), "C13": ("C13.a",), "C15": ("C15.h", "C15.c", "C15.d", "C15.e", "C15.f", "C15.k", "C15.m"), "C18": ("C18.k",), "C06": ("C06.b",)},
-    "C15": {"C16": ("C16.a",), "C14": ("C14.a", "C14.f", "C14.e", "C14.i", "C14.j", "C14.c", "C14.k"), "C18": ("C18.a", "C18.g", "C18.c", "C18.d", "C18.j")},
+    "C15": {"C16": ("C16.a",), "C14": ("C14.a", "C14.f", "C14.e", "C14.i", "C14.j", "C14.c", "C14.k", "C14.q"), "C18": ("C18.a", "C18.g", "C18.c", "C18.d", "C18.j")},
     # C09 "a Postponed result is never bound/stored": the builtins fallback clause of C07.b
     "C09": {"C07": ("C07.b", "C07.e"), "C08": ("C08.a", "C08.b", "C08.d"), "C05": ("C05.g",), "C11": ("C11.h",), "C18": ("C18.k",)},   # "the result does not depend on the order taken": positional storage of list references
     # "a repeated load of the same file returns the cached model": cleanup of a failed load must not evict finished models
@@ -80,7 +81,7 @@ ALSO = {
     "C01": {"C02": ("C02.e",), "C04": ("C04.a", "C04.d", "C04.g"), "C23": ("C23.c",), "C03": ("C03.k", "C03.m", "C03.n"), "C05": ("C05.g",), "C16": ("C16.a",)},
     # C23.c (subscripted terminal in the invalid-regex handler) is the node-kind clause C01.f as well
     # C13 'the object processor registered for a rule': a registration replaces the previous table, never the built-in one (C04.e)
-    "C13": {"C04": ("C04.e",), "C01": ("C01.k",), "C18": ("C18.k",)},
+    "C13": {"C04": ("C04.e",), "C01": ("C01.k",), "C18": ("C18.k",), "C14": ("C14.q",)},
     # C16 'each load ... equal to a fresh process state, also after failing loads': instrumentation / storage / repository cleanup clauses
     "C16": {"C01": ("C01.d", "C01.h",), "C15": ("C15.c", "C15.d", "C15.h", "C15.j", "C15.k", "C15.m"), "C14": ("C14.a", "C14.f", "C14.i", "C14.j", "C14.c", "C14.k"), "C18": ("C18.k",)},
     # C10 'ending in an object of the target type': the conformance test textx_isinstance
